@@ -796,7 +796,7 @@ def m_time_now(ex, st, args, ins, fn):
     return (ns, sec, None)
 
 
-@model('runtime.SetFinalizer', 'os.Exit', 'runtime.GC', 'runtime/debug.PrintStack')
+@model('runtime.SetFinalizer', 'os.Exit', 'runtime.GC', 'runtime/debug.PrintStack', 'time.Sleep')
 def m_noop(ex, st, args, ins, fn):
     if fn['name'] == 'os.Exit':
         raise GoPanic('os.Exit', None, ins.get('pos', ''))
@@ -809,3 +809,111 @@ def m_bits_len(ex, st, args, ins, fn):
     if isinstance(x, int):
         return x.bit_length()
     return NotImplemented
+
+
+# ---------------------------------------------------------------- files (os.File = a byte buffer)
+class FileVal:
+    __slots__ = ('content', 'pos', 'name')
+
+    def __init__(self, content=(), pos=0, name=b'file'):
+        self.content = content
+        self.pos = pos
+        self.name = name
+
+
+def _file(ex, st, p):
+    if p is None:
+        raise GoPanic('nil-deref', None, 'os.File method on nil')
+    fv = ex.load(st, p)
+    if not isinstance(fv, FileVal):
+        raise Unsupported('os.File model: not a modelled file')
+    return fv
+
+
+@model('os.CreateTemp', 'io/ioutil.TempFile', 'os.Create')
+def m_file_create(ex, st, args, ins, fn):
+    c = ex.new_cell(st, FileVal((), 0, b'verif-file-%d' % st.next_cell))
+    return (Ptr(c, ()), None)
+
+
+@model('(*os.File).Write')
+def m_file_write(ex, st, args, ins, fn):
+    fv = _file(ex, st, args[0])
+    data = tuple(ex.slice_elems(st, args[1]))
+    content = fv.content + data          # opened O_APPEND: writes go to the end
+    ex.store(st, args[0], FileVal(content, len(content), fv.name))
+    return (len(data), None)
+
+
+@model('(*os.File).Truncate')
+def m_file_truncate(ex, st, args, ins, fn):
+    fv = _file(ex, st, args[0])
+    n = args[1]
+    if not isinstance(n, int):
+        n = ex.concretize(st, n, 64, limit=ex.opts.get('max_split', 64), what='truncate length')
+    if n < 0:
+        return Opaque('os:EINVAL')
+    content = fv.content[:n] + (0,) * max(0, n - len(fv.content))
+    ex.store(st, args[0], FileVal(content, fv.pos, fv.name))
+    return None
+
+
+@model('(*os.File).Sync', '(*os.File).Close')
+def m_file_sync(ex, st, args, ins, fn):
+    _file(ex, st, args[0])
+    return None
+
+
+@model('(*os.File).Name')
+def m_file_name(ex, st, args, ins, fn):
+    return _file(ex, st, args[0]).name
+
+
+@model('(*os.File).Seek')
+def m_file_seek(ex, st, args, ins, fn):
+    fv = _file(ex, st, args[0])
+    off, whence = args[1], args[2]
+    if not isinstance(off, int) or not isinstance(whence, int):
+        raise Unsupported('symbolic Seek')
+    pos = off if whence == 0 else (fv.pos + off if whence == 1 else len(fv.content) + off)
+    ex.store(st, args[0], FileVal(fv.content, pos, fv.name))
+    return (pos, None)
+
+
+@model('(*os.File).Stat')
+def m_file_stat(ex, st, args, ins, fn):
+    fv = _file(ex, st, args[0])
+    return (Iface(-2, len(fv.content)), None)
+
+
+@model('(*os.File).Read')
+def m_file_read(ex, st, args, ins, fn):
+    fv = _file(ex, st, args[0])
+    dst = args[1]
+    n = min(dst.len, max(0, len(fv.content) - fv.pos))
+    if n == 0:
+        if dst.len == 0:
+            return (0, None)
+        return (0, Opaque('io.EOF'))
+    arr = ex.load(st, dst.base)
+    arr = arr[:dst.off] + tuple(fv.content[fv.pos:fv.pos + n]) + arr[dst.off + n:]
+    ex.store(st, dst.base, arr)
+    ex.store(st, args[0], FileVal(fv.content, fv.pos + n, fv.name))
+    return (n, None)
+
+
+@model('os.Remove', 'os.RemoveAll')
+def m_os_remove(ex, st, args, ins, fn):
+    return None
+
+
+def iface_fileinfo(ex, st, x, mname, args, ins):
+    if not isinstance(x, Iface) or x.t != -2:
+        raise Unsupported('FileInfo of an unmodelled file')
+    if mname == 'Size':
+        return x.v
+    raise Unsupported('FileInfo.' + mname)
+
+
+IFACE_MODELS['io/fs.FileInfo'] = iface_fileinfo
+IFACE_MODELS['os.FileInfo'] = iface_fileinfo
